@@ -67,6 +67,9 @@ class SymStream:
         return self.getvalue()
 
     def seek(self, p, whence=0):
+        from pyvc.sym import strip
+
+        p = strip(p)
         ctx = self.ctx
         if whence == 0:
             if ctx.branch(ctx.lt(p, 0)):
